@@ -33,7 +33,8 @@ Theorem C08_leaf_sound : forall ex k rules v,
 Proof. exact oasx_sound. Qed.
 Print Assumptions C08_leaf_sound.
 
-(* ---- whole schemas without references (Model/OasTree.v): literal nodes under arrays (items as anyOf, minItems/maxItems, an
+(* ---- whole schemas without references (Model/OasTree.v): literal nodes, scalar nodes with an `or` rule over built-in types
+   and rule-sets (anyOf; `const` in an alternative = the carrier's example; a null example is a Null node), under arrays (items as anyOf, minItems/maxItems, an
    empty array closed with maxItems 0) and objects (properties, required, additionalProperties false / any / a type name);
    `inst n v`: v is a value the schema's own rules accept.  Every such value is valid against the converted schema ... *)
 Theorem C08_tree_sound : forall n, accepted n -> forall v, inst n v -> tvalid (to_otree n) v.
